@@ -767,3 +767,41 @@ package core
 //@   ensures[C05.castmatcher_casts_both_each_call] castCalls == old(castCalls) + 2
 //@ func Matches
 //@   assert[C05.matches_starts_from_empty_bindings] at "DefaultMatcher.Match(pattern, fact, map[string]interface{}{": true
+
+// ---- C02: term index and ids ------------------------------------------------------------------
+//@ define hasEntry(ti, t, j) = has(ti.Index, t) && has(ti.Index[t], j)
+//@ func (*TermIndex).Add
+//@   assume-entry ti.Index != nil
+//@   ensures[C02.ti_add_adds]            hasEntry(ti, term, id)
+//@   ensures[C02.ti_add_keeps_the_rest]  forall(t, string, forall(j, string, old(hasEntry(ti, t, j)) ==> hasEntry(ti, t, j)))
+//@   ensures[C02.ti_add_adds_only_that]  forall(t, string, forall(j, string, hasEntry(ti, t, j) && !(t == term && j == id) ==> old(hasEntry(ti, t, j))))
+//@ func (*TermIndex).Rem
+//@   ensures[C02.ti_rem_removes]            !hasEntry(ti, term, id)
+//@   ensures[C02.ti_rem_keeps_the_rest]     forall(t, string, forall(j, string, old(hasEntry(ti, t, j)) && !(t == term && j == id) ==> hasEntry(ti, t, j)))
+//@   ensures[C02.ti_rem_adds_nothing]       forall(t, string, forall(j, string, hasEntry(ti, t, j) ==> old(hasEntry(ti, t, j))))
+//@ func (*TermIndex).RemIdTerms
+//@   ensures[C02.ti_remidterms_touches_only_that_id] forall(t, string, forall(j, string, old(hasEntry(ti, t, j)) && j != id ==> hasEntry(ti, t, j)))
+//@   loop 1: invariant[C02.ti_remidterms_loop] forall(t, string, forall(j, string, old(hasEntry(ti, t, j)) && j != id ==> hasEntry(ti, t, j)))
+//@ func (*TermIndex).TermCard
+//@   ensures[C02.ti_termcard] (result > 0) == (has(ti.Index, term) && len(ti.Index[term]) > 0)
+//@ func (*TermIndex).Search
+//@   ensures[C02.ti_search_refuses_no_terms] len(terms) == 0 ==> result1 != nil
+//@   assert[C02.ti_search_works_on_a_copy]  at "candidates.Rem(id)": fresh(candidates)
+//@   assert[C02.ti_search_intersects]       at "candidates.Rem(id)": !present
+
+//@ func (*IndexedState).add
+//@   loop 1: invariant[C02.ix_add_indexes_every_term] forall(k, int, 0 <= k && k <= rangeindex ==> hasEntry(s.FactIndex, terms[k], id))
+//@   assert[C02.ix_add_stores_after_indexing] at "s.IdToFact[id]": forall(k, int, 0 <= k && k < len(terms) ==> hasEntry(s.FactIndex, terms[k], id))
+
+//@ func genPropId
+//@   ensures[C02.prop_id_is_canonical] result == "!" + id + "." + prop
+//@ func GenId
+//@   ensures[C02.given_id_is_kept]   result1 == nil && def != "" && lastIsProp == false ==> result0 == def
+//@ ghost lastIsProp bool
+//@ func parseProp
+//@   ghost-ensures lastIsProp == is
+//@   also-modifies lastIsProp
+//@ func (*IndexedState).get
+//@   ensures[C02.ix_get_returns_the_stored_fact] result1 == nil ==> old(has(s.IdToFact, id)) && result0 == old(s.IdToFact[id])
+//@ func (*LinearState).get
+//@   ensures[C02.lin_get_returns_the_stored_fact] result1 == nil ==> old(has(s.Facts, id)) && result0 == old(s.Facts[id]).M
